@@ -19,6 +19,9 @@ type ExploreOpts struct {
 	FuelTotal int64
 	OnExec    func(*Exec) // optional observer
 	StopAtFirst bool
+	// Sleep selects mode A: unbounded exploration with sleep-set partial-order
+	// reduction (one complete execution per Mazurkiewicz trace; requires Bound < 0).
+	Sleep bool
 }
 
 // Found is a violating execution.
@@ -40,6 +43,7 @@ type ExploreStats struct {
 	ElisionOff   bool // elision had to be switched off
 	Violations   []Found
 	MaxPreempt   int
+	SleepBlocked int // executions cut by the sleep sets (redundant prefixes)
 }
 
 // Explore enumerates depth-first every schedule of prog whose number of
@@ -58,6 +62,12 @@ func Explore(prog Program, opts ExploreOpts) ExploreStats {
 }
 
 func exploreOnce(prog Program, opts ExploreOpts) ExploreStats {
+	if opts.Sleep {
+		if opts.Bound >= 0 {
+			panic(MachineryError{"sleep sets must not be combined with a preemption bound"})
+		}
+		return exploreSleep(prog, opts)
+	}
 	stats := ExploreStats{Bound: opts.Bound, Complete: true}
 	cfg := Config{Elide: opts.Elide, Race: opts.Race, FuelTotal: opts.FuelTotal}
 	type item struct {
@@ -146,4 +156,96 @@ func Replay(prog Program, choices []int, race, elide, trace bool) (*Exec, []stri
 	threads, judge := prog()
 	ex := RunOnce(Config{Elide: elide, Race: race, Trace: trace}, choices, threads)
 	return ex, judge(ex)
+}
+
+// exploreSleep is mode A: depth-first over all schedules with sleep sets. Two
+// transitions are independent when they operate on different synchronisation
+// objects (sound for race-free programs; races are detected on every explored
+// execution). Every synchronisation operation is a transition of its own.
+func exploreSleep(prog Program, opts ExploreOpts) ExploreStats {
+	stats := ExploreStats{Bound: -1, Complete: true}
+	type item struct {
+		prefix   []int
+		installs map[int][]int
+	}
+	stack := []item{{nil, nil}}
+	for len(stack) > 0 {
+		if opts.MaxExecs > 0 && stats.Executions >= opts.MaxExecs {
+			stats.Complete = false
+			break
+		}
+		if !opts.Deadline.IsZero() && stats.Executions%64 == 0 && time.Now().After(opts.Deadline) {
+			stats.Complete = false
+			break
+		}
+		it := stack[len(stack)-1]
+		stack = stack[:len(stack)-1]
+		threads, judge := prog()
+		cfg := Config{Elide: opts.Elide, Race: opts.Race, FuelTotal: opts.FuelTotal, Sleep: true, Installs: it.installs}
+		ex := RunOnce(cfg, it.prefix, threads)
+		stats.Executions++
+		stats.Points += len(ex.Points)
+		if len(ex.Points) > stats.MaxPoints {
+			stats.MaxPoints = len(ex.Points)
+		}
+		if ex.Threads > stats.MaxThreads {
+			stats.MaxThreads = ex.Threads
+		}
+		if ex.ElisionBroken && opts.Elide {
+			stats.ElisionOff = true
+			stats.Complete = false
+			return stats
+		}
+		if ex.SleepBlocked {
+			stats.SleepBlocked++
+		} else {
+			if ex.Deadlock {
+				stats.Deadlocks++
+			}
+			if p := ex.PreemptionsOf(); p > stats.MaxPreempt {
+				stats.MaxPreempt = p
+			}
+			if opts.OnExec != nil {
+				opts.OnExec(ex)
+			}
+			if what := judge(ex); len(what) > 0 {
+				stats.Violations = append(stats.Violations, Found{Choices: append([]int(nil), ex.Choices...), What: what, Exec: ex})
+				if opts.StopAtFirst {
+					stats.Complete = false
+					return stats
+				}
+			}
+		}
+		// children: at every new node, every enabled thread that is neither the one taken nor asleep;
+		// the k-th alternative sleeps the thread taken and the alternatives before it
+		var kids []item
+		for i := len(it.prefix); i < len(ex.Points); i++ {
+			p := ex.Points[i]
+			asleep := map[int]bool{}
+			for _, u := range p.Sleep {
+				asleep[u] = true
+			}
+			explored := []int{p.Enabled[p.Chosen]}
+			for alt := 0; alt < len(p.Enabled); alt++ {
+				u := p.Enabled[alt]
+				if alt == p.Chosen || asleep[u] {
+					continue
+				}
+				np := make([]int, i+1)
+				copy(np, ex.Choices[:i])
+				np[i] = alt
+				inst := make(map[int][]int, len(it.installs)+1)
+				for k, v := range it.installs {
+					inst[k] = v
+				}
+				inst[i] = append(append([]int(nil), it.installs[i]...), explored...)
+				kids = append(kids, item{np, inst})
+				explored = append(explored, u)
+			}
+		}
+		for k := len(kids) - 1; k >= 0; k-- {
+			stack = append(stack, kids[k])
+		}
+	}
+	return stats
 }
